@@ -284,7 +284,11 @@ def check_bytes(b, ctx=None):
     except ref.RefReject as rr:
         r, reason = None, rr.reason
     if p is None:
-        return "both-reject" if r is None else "lib-strict"
+        if r is None:
+            return "both-reject"
+        # the library refuses a frame the independent reading accepts
+        raise Violation("rejects-wellformed", "%s: reference reads %r"
+                        % (b.hex()[:300], r))
     try:
         got = observe(p)
         e2 = pdu.encode(p)
@@ -308,12 +312,14 @@ def check_bytes(b, ctx=None):
         raise Violation("re-decode-differs", "%s: %r vs %r"
                         % (b.hex()[:200], got, got2))
     if r is None:
-        if reason in VIOLATING_REASONS:
-            if ctx is not None:
-                ctx.set_class(got["type"] + "/" + reason)
-            raise Violation("accepts-" + reason,
-                            "%s decodes to %r" % (b.hex()[:300], got))
-        return "lib-lenient:" + reason
+        # every reason for which the independent reading refuses a frame is a
+        # well-formedness rule of the PDU format (too short for its type,
+        # length fields overrunning, nested aggregates ...): accepting it
+        # means bytes outside the PDU were used or invented
+        if ctx is not None and reason in VIOLATING_REASONS:
+            ctx.set_class(got["type"] + "/" + reason)
+        raise Violation("accepts-" + reason,
+                        "%s decodes to %r" % (b.hex()[:300], got))
     if r != got:
         raise Violation("differential-mismatch", "%s: library %r reference %r"
                         % (b.hex()[:300], got, r))
@@ -554,14 +560,62 @@ def mutated(draw):
 
 
 @st.composite
+def agf_cut_member(draw):
+    """a well-formed AGF in which exactly one member, not the last, is cut
+    short (its length field and its bytes end inside the PDU's header,
+    sequence field or TLVs); every PDU type, emphasis on the numbered ones"""
+    numbered = st.one_of(
+        fixed("RNR", nr=nib, dsap=sap, ssap=sap),
+        fixed("RR", nr=nib, dsap=sap, ssap=sap),
+        fixed("I", ns=nib, nr=nib, data=payload(6), dsap=sap, ssap=sap),
+        fixed("DM", reason=byte, dsap=sap, ssap=sap),
+        fixed("FRMR", flags=nib, ptype=nib, ns=nib, nr=nib, vs=nib, vr=nib,
+              vsa=nib, vra=nib, dsap=sap, ssap=sap))
+    n = draw(st.integers(2, 5))
+    at = draw(st.integers(0, n - 2))
+    out = b"\x00\x80"
+    for i in range(n):
+        if i == at:
+            raw = ref.encode(norm(draw(st.one_of(numbered, numbered,
+                                                 simple_pdu(12)))))
+            raw = raw[:draw(st.integers(2, max(2, len(raw) - 1)))]
+        else:
+            spec = draw(simple_pdu(20))
+            if spec["type"] == "AGF":
+                spec = {"type": "SYMM", "dsap": 0, "ssap": 0}
+            raw = ref.encode(norm(spec))
+        out += struct.pack(">H", len(raw)) + raw
+    return out
+
+
+@st.composite
 def agf_construct(draw):
     """AGF frames assembled from raw sub-PDU strings whose length fields are
     true, too short or too long, with parameter TLVs near the sub-PDU end"""
     parts = []
     for _ in range(draw(st.integers(1, 6))):
-        kind = draw(st.sampled_from(["pdu", "pdu", "tlvtail", "raw", "agf"]))
+        kind = draw(st.sampled_from(["pdu", "pdu", "tlvtail", "raw", "agf",
+                                     "cut", "cut"]))
         if kind == "pdu":
             raw = ref.encode(norm(draw(simple_pdu(40))))
+        elif kind == "cut":
+            # a member that ends inside its header or sequence field: the
+            # length field says 2 (or less than the PDU needs) while more
+            # members follow
+            raw = ref.encode(norm(draw(st.one_of(
+                fixed("RNR", nr=nib, dsap=sap, ssap=sap),
+                fixed("RR", nr=nib, dsap=sap, ssap=sap),
+                fixed("I", ns=nib, nr=nib, data=payload(6), dsap=sap,
+                      ssap=sap),
+                fixed("DM", reason=byte, dsap=sap, ssap=sap),
+                fixed("FRMR", flags=nib, ptype=nib, ns=nib, nr=nib, vs=nib,
+                      vr=nib, vsa=nib, vra=nib, dsap=sap, ssap=sap),
+                simple_pdu(12)))))
+            k = draw(st.integers(2, max(2, len(raw) - 1)))
+            if draw(st.booleans()):
+                raw = raw[:k]           # physically cut
+            parts.append(struct.pack(">H", k) + raw)
+            continue
         elif kind == "tlvtail":
             # parameter PDU whose last TLV announces more than it carries
             head = draw(st.sampled_from([b"\x00\x40", b"\x11\x20", b"\x05\xa0",
@@ -629,7 +683,8 @@ def nested_agf(draw):
 
 def gen_bytes(tier):
     return st.one_of(mutated(), mutated(), agf_construct(), agf_construct(),
-                     agf_overrun(), nested_agf(), reserved_bits(), st.binary(max_size=64),
+                     agf_overrun(), nested_agf(), reserved_bits(),
+                     agf_cut_member(), st.binary(max_size=64),
                      st.binary(max_size=2200))
 
 
